@@ -25,7 +25,7 @@ impl Property for C03 {
         "C03"
     }
     fn rule(&self) -> &'static str {
-        "profile `attribution`: 2-8 output-capable 64-bit signals (outputs and bidirectionals interleaved with inputs), 0-2 virtual signals, loop-free rows (some with C), driver layout = random subset in random order, per-call values from a wide palette (arbitrary 64-bit, boundary, small, Z, X), expected entries drawn to agree with what the script returns in that call in about half of the entries and to disagree / be X / be Z otherwise. Oracle: for every checked row, entry.output == what the recording driver returned for that signal in that row's call (X if not in the layout); check() by an independent 3x3 table; is_checked() iff expected != X; failing_outputs() == exactly the entries that do not pass. Non-trivial: layout is a proper subset or non-identity permutation, >= 2 supplied outputs differ in some call, both verdicts occur; distinct by source + signals + driver."
+        "profile `attribution`: 2-8 output-capable 64-bit signals (outputs and bidirectionals interleaved with inputs), 0-2 virtual signals, loop-free rows (some with C), `let` statements binding variables named like output-capable signals in a quarter of the positions, driver layout = random subset in random order, per-call values from a wide palette (arbitrary 64-bit, boundary, small, Z, X), expected entries drawn to agree with what the script returns in that call in about half of the entries and to disagree / be X / be Z otherwise. A row that a virtual signal turns into an error item (it read Z/X) does not end the run: the caller goes on and the rows after it are checked the same way. Oracle: for every checked row, entry.output == what the recording driver returned for that signal in that row's call (X if not in the layout); check() by an independent 3x3 table; is_checked() iff expected != X; failing_outputs() == exactly the entries that do not pass. Non-trivial: layout is a proper subset or non-identity permutation, >= 2 supplied outputs differ in some call, both verdicts occur; distinct by source + signals + driver."
     }
     fn cases(&self, tier: Tier) -> u64 {
         match tier {
@@ -37,7 +37,7 @@ impl Property for C03 {
         [300, 8, 60]
     }
     fn required_classes(&self) -> Vec<&'static str> {
-        vec!["layout-subset", "layout-permuted", "output-Z", "output-X", "expected-Z", "pass", "fail", "Z-matches-Z", "X-output-vs-number", "virtual", "bidirectional", "supplied-output-not-in-header"]
+        vec!["layout-subset", "layout-permuted", "output-Z", "output-X", "expected-Z", "pass", "fail", "Z-matches-Z", "X-output-vs-number", "virtual", "bidirectional", "supplied-output-not-in-header", "variable-named-like-output", "checked-row-after-error-item"]
     }
     fn run(&self, s: &Streams) -> CaseOut {
         let mut out = CaseOut::new();
@@ -94,7 +94,15 @@ impl Property for C03 {
         // output-reading calls); only computed for the defaulting/overriding driver exactly
         let nrows = 1 + ch.upto(6);
         let mut read_calls = 1usize;
+        let mut shadowing = false;
         for id in 0..nrows {
+            // a variable named like an output-capable signal: the reported output is still the
+            // driver's, and a virtual signal still reads the device
+            if !outs.is_empty() && ch.chance(1, 4) {
+                let n = outs[ch.upto(outs.len())].clone();
+                stmts.push(Stmt::Let(n, Expr::lit(41 + ch.upto(5) as u64)));
+                shadowing = true;
+            }
             let has_c = ch.chance(1, 5);
             // calls made before the checked call of this row (two mid-clock writes for a C row)
             let mid = if has_c { 2 } else { 0 };
@@ -153,11 +161,12 @@ impl Property for C03 {
             "supplied-output-not-in-header",
         );
         out.class_if(sigs.iter().any(|s| matches!(s.kind, Kind::Bidir(_))), "bidirectional");
+        out.class_if(shadowing, "variable-named-like-output");
 
         let Some(tc) = load_wellformed(&mut out, "c03", &text, &sigs) else {
             return out;
         };
-        let real = run_real(&tc, &sigs, &spec, &RunOpts { max_next: 200, ..Default::default() });
+        let real = run_real(&tc, &sigs, &spec, &RunOpts { max_next: 200, continue_after_error: true, ..Default::default() });
         if let Some(c) = &real.ctor {
             match c {
                 RealItem::Panic(p) => out.fail(p.key(), format!("constructor panicked: {p}")),
@@ -169,6 +178,7 @@ impl Property for C03 {
         let mut failv = false;
         let mut differ = false;
         let mut checked_rows = 0;
+        let mut seen_error = false;
         for (k, item) in real.items.iter().enumerate() {
             let row = match item {
                 RealItem::Row(r) => r,
@@ -178,10 +188,11 @@ impl Property for C03 {
                 }
                 RealItem::RuntimeErr(m) => {
                     // a virtual signal that reads a Z/X output makes the row an error (C14);
-                    // the run ends here
+                    // the caller goes on: the rows that follow are checked like any other
                     out.class("virtual-zx-error");
                     let _ = m;
-                    break;
+                    seen_error = true;
+                    continue;
                 }
                 o => {
                     out.fail("c03:unexpected-error", o.short());
@@ -192,6 +203,7 @@ impl Property for C03 {
                 continue;
             }
             checked_rows += 1;
+            out.class_if(seen_error, "checked-row-after-error-item");
             // the call made for this row is the one logged during this next() (exactly one,
             // C02; if the crate does not keep to that, attribution cannot be checked here)
             if real.log_len_before[k + 1] != real.log_len_before[k] + 1 {
